@@ -34,6 +34,12 @@ def check(tier, seed, replay=None):
                 raise ToolError("MC_Run with %s no longer yields the expected counterexample" % cfgf)
             chk.notes.setdefault("dev_counterexamples", []).append("%s -> %s violated (expected)" % (cfgf, rd.violated))
         plan = []
+        # malformed regions at the edges of the input: a diagnostic line (--on-error=stdout puts it into the output) is the first or the last thing
+        # written, or the only one - a write that fails inside it ends the run with an error like a write that fails inside a row
+        for data in (b"}", b"} ", b"1 }", b"} 1\n", b"1 } 2 xx", b"[1,] : ", b"\xff", b'{"a":1} tru', b'"x" nul 5\n]'):
+            for policy in ("stdout", "stderr"):
+                for mode in (["plain", "select", "merge", "take"] if policy == "stdout" else ["plain"]):
+                    plan.append({"policy": policy, "mode": mode, "stdin": hexs(data)})
         for i in range(40 if quick else 2500):
             policy = rnd.choice(["ignore", "panic", "stderr", "stdout"])
             mode = rnd.choice(["plain", "plain", "select", "sort", "merge", "group", "take", "skiptake", "sorttake", "mergetake"])
